@@ -31,6 +31,11 @@
    Event 3  KField 3/4 Ctx/Proc net/runtime/events.rs:171 ModuleRestartEvent.module
    Event 4  KField 3/4 Ctx/Proc net/runtime/events.rs:196 AsyncWakeupEvent.module
    Runtime  KField 0  Task      tokio: the runtime / LocalSet owns every spawned future (modelled, not read off des)
+   Task     --        (none)    net/runtime/blocks.rs:345-360,399-415  the future AsyncFn spawns (new/failable/io) owns the
+                                receiver and what the user's future captured; it calls current() only inside the error
+                                path (:355) and keeps NO Arc<ModuleContext>: a Task -> Ctx edge would close the cycle
+                                Ctx -> Runtime -> Task -> Ctx (nothing shuts the module's runtime down on drop);
+                                [edge_ok] rejects every edge out of a Task, in both variants
    Queue    KField 0  Slot      time/driver.rs:20  TimerQueue.pending: VecDeque<Arc<TimerSlot>>
    Slot     KField 0  Queue     time/driver.rs:30  TimerSlot.queue -- ONLY BEFORE fix 012bc88, when it was an
                                 Arc<TimerQueue> and closed a strong cycle with the line above (now a Weak, see
